@@ -251,6 +251,7 @@ static inline void myth_tls_key_allocator_init(myth_tls_key_allocator_t * s) {
   }
   s->keys[myth_tls_n_keys - 1].next = 0;
   s->free = &s->keys[0];
+  myth_spin_init_body(&s->lock);
 }
 
 static inline void myth_tls_key_allocator_fini(myth_tls_key_allocator_t * s) {
@@ -270,6 +271,7 @@ static inline void myth_tls_fini() {
 static inline int
 myth_tls_key_allocator_alloc(myth_tls_key_allocator_t * s,
 			     myth_tls_destructor_fun_t destructor) {
+  myth_spin_lock_body(&s->lock);
   while (1) {
     /* try to pull the element from the free list */
     myth_tls_key_entry_t * ke = s->free;
@@ -280,9 +282,11 @@ myth_tls_key_allocator_alloc(myth_tls_key_allocator_t * s,
 	/* mark the key as used */
 	ke->next = (myth_tls_key_entry_t *)-1;
 	ke->destructor = destructor;
+	myth_spin_unlock_body(&s->lock);
 	return ke - s->keys;
       }
     } else {
+      myth_spin_unlock_body(&s->lock);
       return -1;
     }
   }
@@ -295,8 +299,10 @@ myth_tls_key_allocator_dealloc(myth_tls_key_allocator_t * s, int key) {
     return (myth_tls_destructor_fun_t)-1;
   }
   myth_tls_key_entry_t * ke = &s->keys[key];
+  myth_spin_lock_body(&s->lock);
   /* make sure the key is being used */
   if (ke->next != (myth_tls_key_entry_t *)-1) {
+    myth_spin_unlock_body(&s->lock);
     return (myth_tls_destructor_fun_t)-1;
   }
   myth_tls_destructor_fun_t f = ke->destructor;
@@ -306,6 +312,7 @@ myth_tls_key_allocator_dealloc(myth_tls_key_allocator_t * s, int key) {
     ke->next = head;
     MYTH_VERIF_POINT(KEY_DEALLOC_BEFORE_CAS);
     if (__sync_bool_compare_and_swap(&s->free, head, ke)) {
+      myth_spin_unlock_body(&s->lock);
       return f;
     }
   }
